@@ -446,8 +446,8 @@ CHECKS["C05"] = num_check("C05", ["-lfftw3", "-lfftw3f"],
 _TSMPER_B = lambda mode: {"name": "tsmper_" + mode, "sources": ["drivers/tsmper_driver.cpp"], "flags": ["-O1", "-g", "-fno-access-control", "-DVF_" + mode]}
 CHECKS["C02"]["builds"] = CHECKS["C02"]["builds"] + [_TSMPER_B("C09"), _TSMPER_B("C10")]
 CHECKS["C02"]["runs"] = CHECKS["C02"]["runs"] + [
-    {"driver": "tsmper_C09", "args": ["--mode", "C09"], "slices": 64, "slice_subset": 16, "tag": "tsm", "only_keys": "(tsm-)?(call|geometry):.*"},
-    {"driver": "tsmper_C10", "args": ["--mode", "C10"], "slices": 64, "slice_subset": 32, "tag": "per", "only_keys": "(tsm-)?(call|geometry):.*"}]
+    {"driver": "tsmper_C09", "args": ["--mode", "C09"], "slices": 64, "slice_subset": 16, "tag": "tsm", "only_keys": "(tsm-)?(call|geometry):.*", "replayable": False},
+    {"driver": "tsmper_C10", "args": ["--mode", "C10"], "slices": 64, "slice_subset": 32, "tag": "per", "only_keys": "(tsm-)?(call|geometry):.*", "replayable": False}]
 CHECKS["C02"]["rule"] += (" Other executors: the same per-call predicates and exact potentials through the sequential target/source executor and the "
                           "periodic four-call sequence with both top trees (subsets of the C09/C10 spaces; only call:/geometry: keys count here); "
                           "the OpenMP, Specx and StarPU executors run with the predicates on under the schedule explorer of C03.")
@@ -455,10 +455,10 @@ for _pid, _keys, _what in (("C06", "(source|target)-construction:.*", "construct
                            ("C07", "(source|target)-structure:.*", "structure of the source and target trees of the target/source variant"),
                            ("C16", "(source|target)-lookup:.*", "lookups on the source and target trees of the target/source variant")):
     CHECKS[_pid]["builds"] = CHECKS[_pid]["builds"] + [_TSMPER_B("C09")]
-    CHECKS[_pid]["runs"] = CHECKS[_pid]["runs"] + [{"driver": "tsmper_C09", "args": ["--mode", "C09"], "slices": 64, "slice_subset": 16, "tag": "tsm", "only_keys": _keys}]
+    CHECKS[_pid]["runs"] = CHECKS[_pid]["runs"] + [{"driver": "tsmper_C09", "args": ["--mode", "C09"], "slices": 64, "slice_subset": 16, "tag": "tsm", "only_keys": _keys, "replayable": False}]
     CHECKS[_pid]["rule"] += " Plus: " + _what + " on a subset of the C09 space (slices 0..15 of 64)."
 CHECKS["C07"]["builds"] = CHECKS["C07"]["builds"] + [{"name": "hist_C13", "sources": ["drivers/hist_driver.cpp"], "flags": ["-O1", "-g", "-DVF_C13"]}]
-CHECKS["C07"]["runs"] = CHECKS["C07"]["runs"] + [{"driver": "hist_C13", "args": ["--mode", "C13"], "slices": 32, "tag": "rebuild", "only_keys": "rebuild:structure:.*"}]
+CHECKS["C07"]["runs"] = CHECKS["C07"]["runs"] + [{"driver": "hist_C13", "args": ["--mode", "C13"], "slices": 32, "tag": "rebuild", "only_keys": "rebuild:structure:.*", "replayable": False}]
 CHECKS["C07"]["rule"] += " Trees after rebuild: the structure invariants after every rebuild of the C13 history search (only rebuild:structure: keys count here)."
 CHECKS["C06"]["rule"] += (" The clause 'execution of any executor never alters positions, indices or cell headers' for the task-based executors is "
                           "decided by C03/C09: every terminal state of the explorer must have all buffers, symbolic ones included, byte-identical to the sequential run.")
@@ -470,3 +470,9 @@ CHECKS["C12"]["builds"] = CHECKS["C12"]["builds"] + [{"name": "hist_C12_omp",
 CHECKS["C12"]["runs"] = CHECKS["C12"]["runs"] + [{"driver": "hist_C12_omp", "args": ["--mode", "C12"], "slices": 32, "tag": "omp"}]
 CHECKS["C12"]["rule"] += (" The same flag-state search is repeated with the OpenMP executor under the mock runtime, every execute() call scheduled by a named "
                           "schedule (defer-all FIFO, run-at-creation, defer-all LIFO, inverted priority) on the 3-D trees.")
+
+CHECKS["C10"]["builds"] = CHECKS["C10"]["builds"] + [{"name": "tsmper_C10_omp",
+    "objects": [{"source": "drivers/tsmper_driver.cpp", "flags": ["-O1", "-g", "-fopenmp", "-fno-access-control", "-DVF_C10", "-DVF_C10_OMP"]}, SCHED_OBJ], "link": ["-ldl"]}]
+CHECKS["C10"]["runs"] = CHECKS["C10"]["runs"] + [{"driver": "tsmper_C10_omp", "args": ["--mode", "C10"], "slices": 64, "tag": "omp"}]
+CHECKS["C10"]["rule"] += (" The whole space is run a second time with the OpenMP executors (single tree and target/source) under the mock runtime, each execute() call "
+                          "of the sequence under a named schedule (defer-all FIFO/LIFO/priority/inverted priority, run-at-creation, rotating with the case ordinal).")
